@@ -22,7 +22,8 @@ META = dict(
     bounds=dict(
         quick="unit: real Percentage.calculate_fees + OrderManager._round_fees + Order.add_fill on a real LimitOrder, "
               "k <= 3 fills with symbolic quote amounts (on the quote grid, buy and sell), symbolic minimum fee, "
-              "percentage from {0, 0.1, 0.25, 1, 99.9999} (quick) at quote precisions 2 and 0; integration: limit / "
+              "percentage from {0, 0.1, 0.25, 1, 99.9999} (quick) at quote precisions 2 and 0 (k <= 3) and 12 (k <= 2); "
+              "integration: limit / "
               "stop-limit orders partially filled over 2 bars under VolumeShareImpact, every fee scheme incl. NoFee",
         thorough="k <= 4 fills, percentage symbolic with 4 decimals in [0, 100), quote precision 8"),
     stubs=hist.BASE_STUBS, assumptions=hist.BASE_ASSUMPTIONS,
@@ -106,9 +107,6 @@ def integration(ctx, kind="limit", side="buy", fee="pctmin", nbars=2, **cfg):
         else:
             ctx.prove(charged == 0, "C09 an order that never traded pays nothing")
         ctx.prove(charged >= 0, "C09 fees are never negative")
-    for lab in META["required_covers"]:
-        if lab != "an order traded":
-            ctx.cover(lab)
 
 
 def jobs(tier):
@@ -120,6 +118,11 @@ def jobs(tier):
                 js.append(Job("unit k=%d qp=%d %s" % (kk, qp, side), "unit", dict(k=kk, qp=qp, side=side),
                               validate_every=10, sample_every=30, split=64 if kk >= 3 else 0, max_paths=300000,
                               prove_timeout=30000))
+    # a quote precision finer than 8 decimals (nothing in the fee pipeline may assume 8)
+    for side in ("buy", "sell"):
+        for kk in (1, 2):
+            js.append(Job("unit k=%d qp=12 %s" % (kk, side), "unit", dict(k=kk, qp=12, side=side), validate_every=10,
+                          sample_every=30, max_paths=300000, prove_timeout=30000))
     if tier == "thorough":
         for side in ("buy", "sell"):
             js.append(Job("unit symbolic pct k=2 %s" % side, "unit", dict(k=2, qp=2, side=side, pct_mode="symbolic"),
